@@ -118,8 +118,8 @@ impl Group for C16Persist {
     fn corpus(&self) -> Vec<Vec<String>> {
         let c = |s: &str| s.split('|').map(|x| x.to_string()).collect::<Vec<_>>();
         vec![
-            c("pseed 07|pnew|pallow 2|pchan 1|psetup 1 0|pchan 2|psetup 2 1|gchans|gchan 1|gchan 2|pstate|ptracker|pdelchan 1|gchans|pallow 1|gallow|gnodes|punlogged|prepl"),
-            c("pseed 09|pnew|pchan 3|pdelchan 3|gchans|pchan 4|psetup 4 1|pdelnode|gnodes|punlogged"),
+            c("pseed 07|pnew|pallow 2|pchan 1|psetup 1 0|pchan 2|psetup 2 1|gchans|gchan 1|gchan 2|pstate|ptracker|pdelchan 1|gchans|pallow 1|gallow|gnodes|punlogged|prepl|pstate|ptracker|pallow 2|gchans"),
+            c("pseed 09|pnew|pchan 3|pdelchan 3|gchans|pstub 3|gchans|pchan 4|psetup 4 1|pdelnode|gnodes|punlogged"),
         ]
     }
     fn gen_case(&self, rng: &mut Rng, tier: Tier) -> Vec<String> {
@@ -144,11 +144,25 @@ impl Group for C16Persist {
                     let i = pool.remove(rng.below(pool.len() as u64) as usize);
                     ops.push(format!("pdelchan {}", i));
                 }
+                8 if !stubs.is_empty() && rng.chance(1, 2) => {
+                    let i = *rng.pick(&stubs);
+                    ops.push(format!("pdelchan {}", i));
+                    ops.push(format!("pstub {}", i));
+                    ops.push("gchans".into());
+                }
                 8 => ops.push("gchans".into()),
                 9 if !ready.is_empty() => ops.push(format!("gchan {}", rng.pick(&ready))),
                 10 => ops.push(rng.pick(&["gallow", "gnodes"]).to_string()),
                 _ => ops.push("punlogged".into()),
             }
+        }
+        // sometimes replicate in the middle and keep writing: every record restarts at version 0 and goes on from there
+        if rng.chance(1, 3) {
+            ops.push("prepl".into());
+            ops.push("pstate".into());
+            ops.push("ptracker".into());
+            if let Some(i) = ready.first() { ops.push(format!("pdelchan {}", i)); }
+            ops.push("pallow 1".into());
         }
         if rng.chance(1, 6) { ops.push("pdelnode".into()); ops.push("gnodes".into()); }
         ops.push("gchans".into());
@@ -179,6 +193,7 @@ impl Group for C16Persist {
         let mut allow_now: Vec<String> = vec![];
         let mut node_deleted = false;
         let (mut did_setup, mut did_delete) = (false, false);
+        let mut replicated = false;
         for (i, line) in ops.iter().enumerate() {
             let t: Vec<&str> = line.split(' ').collect();
             let mut outs: Vec<String> = Vec::new();
@@ -228,6 +243,25 @@ impl Group for C16Persist {
                         match r {
                             Ok((id, _)) => { if wi == 0 { chan_id0.insert(idx, id.clone()); live.insert(idx); } "ok".into() }
                             Err(_) => "err".into(),
+                        }
+                    }
+                    "pstub" => {
+                        // the persister's new_channel called again for a stub (e.g. after its record was deleted):
+                        // like every write it must move the key one version up
+                        let n = w.node.as_ref().unwrap();
+                        let idx: u64 = t[1].parse().unwrap();
+                        let id0 = match chan_id0.get(&idx) { Some(c) => c.clone(), None => { outs.push("no-chan".into()); continue; } };
+                        let slot = n.get_channel(&id0).unwrap();
+                        let guard = slot.lock().unwrap();
+                        match &*guard {
+                            ChannelSlot::Stub(stub) => {
+                                w.b.begin();
+                                let r = p.new_channel(&n.get_id(), stub);
+                                w.b.end();
+                                if wi == 0 && r.is_ok() { live.insert(idx); }
+                                format!("{}", if r.is_ok() { "ok" } else { "err" })
+                            }
+                            _ => "not-a-stub".into(),
                         }
                     }
                     "psetup" => {
@@ -284,8 +318,17 @@ impl Group for C16Persist {
                     "gchans" => {
                         let n = w.node.as_ref().unwrap();
                         w.b.begin();
-                        let r = p.get_node_channels(&n.get_id()).unwrap();
+                        let r = p.get_node_channels(&n.get_id());
                         w.b.end();
+                        let r = match r {
+                            Ok(r) => r,
+                            Err(e) => {
+                                co.violations.push(Violation { kind: "c16-read-not-last-write".into(), at: i,
+                                    desc: format!("{}: get_node_channels fails ({:?}) on records the persister wrote itself", w.b.name(), e) });
+                                outs.push("chans err".into());
+                                continue;
+                            }
+                        };
                         let got: BTreeSet<String> = r.iter().map(|(c, _)| hexs(c.as_slice())).collect();
                         let want: BTreeSet<String> = live.iter().map(|j| hexs(chan_id0[j].as_slice())).collect();
                         if got != want {
@@ -350,8 +393,17 @@ impl Group for C16Persist {
                     }
                     "gnodes" => {
                         w.b.begin();
-                        let r = p.get_nodes().unwrap();
+                        let r = p.get_nodes();
                         w.b.end();
+                        let r = match r {
+                            Ok(r) => r,
+                            Err(e) => {
+                                co.violations.push(Violation { kind: "c16-read-not-last-write".into(), at: i,
+                                    desc: format!("{}: get_nodes fails ({:?}) on records the persister wrote itself", w.b.name(), e) });
+                                outs.push("nodes err".into());
+                                continue;
+                            }
+                        };
                         let want = if node_deleted || w.node.is_none() { 0 } else { 1 };
                         if r.len() != want {
                             co.violations.push(Violation { kind: "c16-read-not-last-write".into(), at: i,
@@ -409,8 +461,13 @@ impl Group for C16Persist {
                 "pstate" => { must.insert(k_state.clone()); }
                 "ptracker" => { must.insert(k_tracker.clone()); }
                 "pdelchan" => { if let Some(c) = chan_id0.get(&t[1].parse().unwrap()) { must.insert(k_chan(c)); } }
+                "pstub" => { if outs[0] == "ok" { if let Some(c) = chan_id0.get(&t[1].parse().unwrap()) { must.insert(k_chan(c)); } } }
                 "pdelnode" => { must.insert(k_entry.clone()); must.insert(k_state.clone()); }
                 _ => {}
+            }
+            if outs.iter().any(|o| o == "err") && matches!(t[0], "pallow" | "pchan" | "psetup" | "pstate" | "ptracker" | "pdelchan" | "pdelnode" | "pstub") {
+                co.violations.push(Violation { kind: "c16-put-refused".into(), at: i,
+                    desc: format!("`{}` was refused by a store: {}", line, outs.join(" | ")) });
             }
             let is_prepl = t[0] == "prepl";
             let cur: Vec<Dump> = worlds.iter().map(|w| w.b.dump()).collect();
@@ -448,7 +505,10 @@ impl Group for C16Persist {
                     }
                 }
             }
-            if !is_prepl && (cur[0] != cur[1] || cur[0] != cur[2]) {
+            if is_prepl { replicated = true; }
+            // (after a begin_replication the cloud-linked store, which refuses it, keeps its versions: compare
+            // memory and redb only from then on)
+            if !is_prepl && (cur[0] != cur[1] || (!replicated && cur[0] != cur[2])) {
                 let show = |d: &Dump| d.iter().map(|(k, v)| format!("{}@{}#{}", k, v.0, v.1.len())).collect::<Vec<_>>().join(" ");
                 co.violations.push(Violation { kind: "c16-persister-backends-differ".into(), at: i,
                     desc: format!("after `{}`: memory [{}] redb [{}] cloud [{}]", line, show(&cur[0]), show(&cur[1]), show(&cur[2])) });
